@@ -114,21 +114,99 @@ def build(tier, seed):
         isd = extract(cx, r'^    pub\(crate\) fn is_stdint_type\(&self, name: &str\) -> bool \{', what='BindgenContext::is_stdint_type')
         isp = extract(comp, r'^    pub\(crate\) fn is_packed\(', what='CompInfo::is_packed')
         alp = extract(comp, r'^    pub\(crate\) fn already_packed\(&self, ctx: &BindgenContext\) -> Option<bool> \{', what='CompInfo::already_packed')
+        hsrc = rd('codegen/helpers.rs')
+        ikrt = extract(hsrc, r'^    pub\(crate\) fn int_kind_rust_type\(', what='ast_ty::int_kind_rust_type')
+        fkrt = extract(hsrc, r'^    pub\(crate\) fn float_kind_rust_type\(', what='ast_ty::float_kind_rust_type')
+        fk = extract(rd('ir/ty.rs'), r'^pub\(crate\) enum FloatKind \{', what='enum FloatKind')
+        intrs = strip_inner(rd('ir/int.rs'))
         h = open(os.path.join(G, 'harness', 'c02_tables.rs')).read()
+        h = h.replace('/*INT_RS*/', intrs).replace('/*FLOAT_KIND*/', fk).replace('/*INT_KIND_RUST_TYPE*/', ikrt).replace('/*FLOAT_KIND_RUST_TYPE*/', fkrt.replace('super::integer_type', 'crate::integer_type'))
         h = h.replace('/*IS_STDINT*/', isd).replace('/*TYPE_FROM_NAMED*/', tfn.replace('pub(crate) fn', 'pub fn')).replace('/*IS_PACKED*/', isp).replace('/*ALREADY_PACKED*/', alp)
         kk = Kernel(name='tables')
         kk.files = {'src/lib.rs': h}
         kk.harnesses = [H('stdint_names_map_to_the_right_primitive', desc='type_from_named: 13 <stdint.h> names -> primitive of same width/sign; agrees with is_stdint_type under both size_t options', sample='13 names x size_t_is_usize'),
+                        H('integer_kinds_map_to_rust_types_of_the_same_width_and_sign', desc='ast_ty::int_kind_rust_type x IntKind::{is_signed,known_size}: 20 sized kinds + bool/char/wchar_t', sample='23 integer kinds'),
+                        H('float_kinds_map_to_rust_types_of_the_same_width', desc='ast_ty::float_kind_rust_type: float, double, long double by layout, __float128, _Float16', sample='5 float kinds x convert_floats'),
                         H('packed_attribute_and_pragma_pack_are_detected', desc='CompInfo::is_packed on <= 3 fields with symbolic layouts, parent layout known or not', sample={'fields': '<=3', 'parent_layout': 'Some|None'}),
                         H('already_packed_means_naturally_aligned_offsets', desc='CompInfo::already_packed', sample={'fields': '<=3'})]
-        kk.encoded = [enc('codegen/mod.rs', 'utils::type_from_named', tfn), enc('ir/context.rs', 'BindgenContext::is_stdint_type', isd), enc('ir/comp.rs', 'CompInfo::is_packed', isp), enc('ir/comp.rs', 'CompInfo::already_packed', alp)]
+        kk.encoded = [enc('codegen/helpers.rs', 'ast_ty::int_kind_rust_type', ikrt), enc('codegen/helpers.rs', 'ast_ty::float_kind_rust_type', fkrt), enc('ir/int.rs', 'whole file', rd('ir/int.rs')), enc('codegen/mod.rs', 'utils::type_from_named', tfn), enc('ir/context.rs', 'BindgenContext::is_stdint_type', isd), enc('ir/comp.rs', 'CompInfo::is_packed', isp), enc('ir/comp.rs', 'CompInfo::already_packed', alp)]
         kk.stubs = ['primitive_ty: returns the primitive name instead of tokens', 'CompInfo{packed_attr, has_own_virtual_method, fields}: stub field list with optional layouts; each_known_field_layout over it', 'info!: no-op']
         kk.bounds = ['13 concrete names; <= 3 fields, sizes <= 65536, alignments 1..32']
         return kk
+    def driver():
+        sl = strip_test_mods(strip_uses(strip_inner(rd('codegen/struct_layout.rs'))))
+        layout = strip_test_mods(strip_uses(strip_inner(rd('ir/layout.rs'))))
+        hsrc = rd('codegen/helpers.rs')
+        blob_real = extract(hsrc, r'^pub\(crate\) fn blob\(', what='helpers::blob')
+        blob = blob_real.replace('format_ident!("__BindgenOpaqueArray{align}")', 'format_ident!("__BindgenOpaqueArray{}", align)')
+        integer_type = extract(hsrc, r'^pub\(crate\) fn integer_type\(', what='helpers::integer_type')
+        m = re.search(r'^pub\(crate\) const RUST_DERIVE_IN_ARRAY_LIMIT: usize = \d+;', rd('ir/ty.rs'), flags=re.M)
+        if not m:
+            raise SliceError('RUST_DERIVE_IN_ARRAY_LIMIT not found')
+        mod = rd('codegen/mod.rs')
+        a = mod.find('        let mut explicit_align = None;')
+        b = mod.find('        let derivable_traits = if self.is_forward_declaration() {')
+        if a < 0 or b < a:
+            raise SliceError('CompInfo::codegen region anchors not found')
+        region_real = mod[a:b]
+        if region_real.count('format!("packed({n})")') != 1:
+            raise SliceError('CompInfo::codegen region: packed(n) formatting changed shape')
+        region = region_real.replace('format!("packed({n})")', 'packed_n_string(n)')
+        alp = extract(rd('ir/comp.rs'), r'^    pub\(crate\) fn already_packed\(&self, ctx: &BindgenContext\) -> Option<bool> \{', what='CompInfo::already_packed')
+        pre = open(os.path.join(G, 'prelude', 'layout_env.rs')).read()
+        har = open(os.path.join(G, 'harness', 'c02_driver.rs')).read().replace('/*REGION*/', region).replace('/*ALREADY_PACKED*/', alp)
+        gen, hs = [], []
+        tl = [(2, (1, 8), 0, 0), (2, (8, 1), 0, 0), (2, (4, 8), 1, 0), (2, (8, 8), 2, 0), (2, (1, 8), 0, 16), (2, (4, 4), 0, 8), (2, (1, 16), 0, 0), (2, (16, 8), 2, 0), (2, (16, 1), 4, 0),
+              (3, (1, 8, 2), 0, 0), (3, (16, 8, 1), 2, 0), (3, (4, 16, 4), 2, 0), (3, (8, 1, 4), 1, 0), (2, (2, 4), 4, 0), (2, (8, 4), 0, 0), (2, (1, 2), 2, 0)]
+        for i, (kk, al, p_, ea) in enumerate(tl):
+            name = 'drv_s%d_%s_p%d_e%d' % (kk, '_'.join(map(str, al)), p_, ea)
+            gen.append('#[kani::proof] #[kani::unwind(%d)] fn %s() { struct_case::<%d, %d, %d>([%s]) }' % (14, name, kk, p_, ea, ', '.join(map(str, al))))
+            hs.append(H(name, path='driver_proofs::' + name, timeout=900, tier='quick' if i % 2 == 0 or p_ == 2 else 'thorough',
+                        desc='REAL CompInfo::codegen region on a struct of %d members (alignments %s, packing %d, member aligned %d): emitted fields + repr attributes laid out by Rust == C' % (kk, al, p_, ea),
+                        sample={'members': kk, 'aligns': list(al), 'pack': p_, 'member_aligned': ea}))
+        for a_ in (1, 2, 4, 8, 16):
+            gen.append('#[kani::proof] #[kani::unwind(14)] fn drv_opaque_a%d() { opaque_case::<%d>() }' % (a_, a_))
+            hs.append(H('drv_opaque_a%d' % a_, path='driver_proofs::drv_opaque_a%d' % a_, timeout=900, tier='quick' if a_ in (1, 4, 16) else 'thorough',
+                        desc='REAL CompInfo::codegen region on an opaque type of alignment %d, size <= 64*align, C definition packed or not: one blob, exact size/alignment, never packed+align' % a_, sample={'opaque': True, 'align': a_}))
+        har = har.replace('/*GENERATED*/', '\n    '.join(gen))
+        text = (pre + '\n' + m.group(0) + '\n' + 'pub mod layout_mod { use super::*; ' + layout + '}\npub(crate) use layout_mod::Layout;\n' +
+                'pub mod helpers { use super::*; ' + blob + '\n' + integer_type + '\npub mod ast_ty { pub fn int_expr(v: i64) -> usize { v as usize } } }\n' +
+                'pub mod struct_layout { use super::*; ' + sl + '}\npub(crate) use struct_layout::StructLayoutTracker;\n' + har)
+        kk_ = Kernel(name='driver')
+        kk_.files = {'src/lib.rs': text}
+        kk_.harnesses = hs
+        kk_.encoded = [enc('codegen/mod.rs', 'impl CodeGenerator for CompInfo: region from `let mut explicit_align` to the derive computation (REAL text)', region_real),
+                       enc('codegen/struct_layout.rs', 'whole file', rd('codegen/struct_layout.rs')), enc('codegen/helpers.rs', 'fn blob', blob_real), enc('ir/comp.rs', 'CompInfo::already_packed', alp)]
+        kk_.stubs = ['quote!: one arm per token shape of the region (20 shapes); an unknown shape is a compile error (INCONCLUSIVE)', 'attributes::{doc, repr, repr_list}: record the repr instead of tokens',
+                     'rewrite: format!("packed({n})") -> packed_n_string(n) (macro hygiene; same text)', 'Vec<TokenStream> -> fixed-capacity TVec (push / insert(0) / is_empty)',
+                     'CompInfo: has_bitfields flag, field layouts, flex_array_member = None; Item::comment = None; flexarray_dst off; no generic parameters']
+        kk_.assumptions = ['members are pushed by Field::codegen in declaration order, each preceded by the padding field saw_field_with_layout returned (codegen/mod.rs FieldCodegen for FieldData)',
+                           'is_packed as computed by CompInfo::is_packed (kernel `tables`)', 'C numbers as in kernel `layout`']
+        kk_.bounds = ['%d alignment/packing tuples + opaque types of alignment 1..16' % len(tl)]
+        return kk_
     ks = []
     try:
         ks += k()
     except SliceError as e:
         ks.append(Kernel(name='layout', error='slice-failed: %s' % e))
     ks.append(kernel_or_error('tables', tables))
+    ks.append(kernel_or_error('driver', driver))
+    def builtin():
+        cx = rd('ir/context.rs')
+        f = extract(cx, r'^    fn build_builtin_ty\(&mut self, ty: &clang::Type\) -> Option<TypeId> \{', what='BindgenContext::build_builtin_ty')
+        m = re.search(r'let type_kind = match ty\.kind\(\) \{', f)
+        if not m:
+            raise SliceError('build_builtin_ty: match statement not found')
+        e = match_brace(f, m.end() - 1)
+        stmt = f[m.start():e] + ';'
+        fk = extract(rd('ir/ty.rs'), r'^pub\(crate\) enum FloatKind \{', what='enum FloatKind')
+        h = open(os.path.join(G, 'harness', 'c02_builtin.rs')).read().replace('/*INT_RS*/', strip_inner(rd('ir/int.rs'))).replace('/*FLOAT_KIND*/', fk).replace('/*MATCH_STMT*/', stmt)
+        kk = Kernel(name='builtin_types')
+        kk.files = {'src/lib.rs': h}
+        kk.harnesses = [H('builtin_c_types_keep_their_identity', desc='build_builtin_ty: every libclang builtin type kind -> the IntKind / FloatKind of the same C type (29 kinds, _Complex element, char16_t option)', sample='29 type kinds')]
+        kk.encoded = [enc('ir/context.rs', 'BindgenContext::build_builtin_ty: match on the libclang type kind', stmt), enc('ir/int.rs', 'whole file', rd('ir/int.rs'))]
+        kk.stubs = ['clang_sys::CXType_*: environment table of distinct codes (only identity matters)', 'clang::Type: kind + optional element kind']
+        kk.bounds = ['all 29 listed kinds']
+        return kk
+    ks.append(kernel_or_error('builtin_types', builtin))
     return ks
